@@ -21,6 +21,7 @@ class VFS:
     docs = []        # Documenter constructions: (file, title, module_name)
     fail_on = None   # file whose Documenter.process raises (C06.d)
     rel_verdict2 = False
+    patterns = []    # the pattern lists handed to the gitignore matcher (PathSpec.from_lines), one per call
     links = {}       # symbolic links to directories: link path -> target path (both absolute); only the input path itself is ever a link
     rel_verdict = False   # verdict of the matcher for any path that is NOT absolute (CMinx's contract is to ask with absolute paths;
                           # what a pattern makes of a cwd-relative spelling is arbitrary)
@@ -31,6 +32,7 @@ class VFS:
         cls.writes, cls.mkdirs, cls.prints, cls.asked, cls.docs = [], [], [], [], []
         cls.fail_on = None
         cls.links = {}
+        cls.patterns = []
 
 
 def _abs(p):
@@ -158,9 +160,14 @@ def _rec_print(*a, **k):
     VFS.prints.append(" ".join(str(x) for x in a) + k.get("end", "\n"))
 
 
+def _from_lines(factory, lines, *rest):
+    VFS.patterns.append(list(lines))
+    return Spec()
+
+
 def install():
     cminx.os = _OsShim
-    cminx.pathspec = type("ps", (), {"PathSpec": type("PS", (), {"from_lines": staticmethod(lambda *a: Spec())}),
+    cminx.pathspec = type("ps", (), {"PathSpec": type("PS", (), {"from_lines": staticmethod(_from_lines)}),
                                       "patterns": type("pt", (), {"GitWildMatchPattern": None})})
     cminx.Documenter = FakeDocumenter
     cminx.print = _rec_print
